@@ -96,6 +96,17 @@ CHECKS.update({
             "region from fm (C02); ties at fm skipped (counted)", "DESIGN.md §4 C15"),
 })
 
+CHECKS.update({
+    "C17": ("exploration",
+            "bounded-exhaustive enumeration of all lattice polyline pairs and all star polygons x step variants on the "
+            "real code; exact rational (fractions.Fraction) geometry oracle",
+            "(a) every pair of lattice polylines in general position (decided exactly): returned crossings equal the "
+            "exact ones as multisets; (b) every star polygon with radii {1,2,3} over 6..8 directions (3 translations) and "
+            "IFORM/ISORM/DS contours x 8 step variants x swap_axis: abscissae unchanged, present iff crossing, ordinate "
+            "= exact top (abscissa rounding of 1e-12 accepted), default abscissae as documented.",
+            "fractions.Fraction on the exact float values", "DESIGN.md §4 C17"),
+})
+
 NOT_APPLICABLE = {
 }
 
